@@ -18,7 +18,8 @@ DAY = 86400
 def configs(tier):
     cs = [Config(levels=1, ndisks=2), Config(levels=2, ndisks=3, hashkind="spooky2", hashsize=8, splits={0: 2, 1: 2}, parity_limit=6144),
           Config(levels=3, z=True, ndisks=2, tag="rehash"),
-          Config(levels=1, ndisks=2, tag="scrubbed")]
+          Config(levels=1, ndisks=2, tag="scrubbed"),
+          Config(levels=2, ndisks=2, tag="partial")]
     if tier == "thorough":
         cs += [Config(levels=6, ndisks=2), Config(levels=3, ndisks=4, blocksize=2), Config(levels=2, ndisks=3, tag="hole")]
     return cs
@@ -38,6 +39,10 @@ def init_ops(cfg):
     if cfg.tag == "scrubbed":
         # everything scrubbed, then one small file synced: '-p new' selects a single stripe
         ops += [("cmd", "scrub", "-p", "full"), ("write", "d1", "late", 1000, 0), ("cmd", "sync")]
+    if cfg.tag == "partial":
+        # a new file on the FIRST disk recorded but not synced (range-limited sync): its stripes hold an unsynced block on the lower
+        # disk and synced blocks of 'five' on the higher disk
+        ops += [("write", "d1", "newf", 3000, 0), ("cmd", "sync", "-B", "1")]
     if cfg.tag == "hole":
         ops += [("emptydisk", "d2"), ("cmd", "sync", "-E"), ("dropdisk", "d2"), ("write", "d3", "late", 2500, 0), ("cmd", "sync")]
     return ops
@@ -63,9 +68,14 @@ def damage_list(cfg, c):
     for d in c.disks.values():
         for f in d.files:
             for i, (st, pos, h) in enumerate(f.blocks):
-                out.append(("data", d.name.decode(), pos))
+                if st == C.BLK:     # the statement speaks of synced blocks
+                    out.append(("data", d.name.decode(), pos))
     used = F.used_stripes(c)
+    unsynced = {pos for d in c.disks.values() for f in d.files for st, pos, h in f.blocks if st != C.BLK}
+    unsynced |= {pos for d in c.disks.values() for pos in d.deleted}
     for pos in sorted(used):
+        if pos in unsynced:
+            continue                # the parity of a stripe with pending blocks is not yet defined: nothing to detect there
         for l in sorted(c.parity):
             out.append(("parity", l, pos))
     return out
@@ -121,6 +131,11 @@ def job(j):
         c = L.content()
     res = L.run(cmd[0], *cmd[1:])
     got_data, got_par = error_sets(res, cfg)
+    # stripes with pending (not yet synced) blocks: their parity legitimately differs from the data now on disk and scrub / check say
+    # so (an error that is neither silent nor marked); the statement is about the synced blocks and the fully synced stripes
+    pending = {pos for d in c.disks.values() for f in d.files for st, pos, h in f.blocks if st != C.BLK}
+    pending |= {pos for d in c.disks.values() for pos in d.deleted}
+    got_par = {x for x in got_par if x[0] not in pending}
     # coverage
     info = c.info
     stripes = {d[2] for d in dmgs}
@@ -158,7 +173,7 @@ def job(j):
     anything = bool(exp_data or exp_par)
     if anything and res.rc == 0:
         viols.append(dict(kind="exit-0-with-damage", where=where))
-    if not anything and res.rc != 0:
+    if not anything and res.rc != 0 and not pending:
         viols.append(dict(kind="failing-exit-without-covered-damage", where=where, rc=res.rc, out=res.text()[-300:]))
     if cmd[0] == "scrub":
         bad, hasbad, st = bad_set(L)
